@@ -3206,8 +3206,16 @@ cdata_call(CDataObject *cd, PyObject *args, PyObject *kwds)
                     goto error;
             }
         }
-        else if (convert_from_object(data, argtype, obj) < 0)
-            goto error;
+        else {
+            if (argtype->ct_flags & (CT_STRUCT | CT_UNION)) {
+                /* a struct passed by value: an initializer (list or dict)
+                   may name only some of the fields; the other ones must
+                   be zero like with ffi.new(), not garbage */
+                memset(data, 0, argtype->ct_size);
+            }
+            if (convert_from_object(data, argtype, obj) < 0)
+                goto error;
+        }
     }
 
     resultdata = buffer + cif_descr->exchange_offset_arg[0];
